@@ -6,7 +6,7 @@ use std::{path::PathBuf, process::Command, time::Instant};
 use serde_json::{json, Value};
 
 use crate::{
-	c04, c07, c16, c18,
+	c03, c04, c07, c16, c18,
 	evidence::{write_evidence, EvidenceInput},
 	harness::{self, plan_for, report_violations, run_batch, run_one, BatchCfg, BatchResult, ReplayFile, Scenario, Tier},
 	known,
@@ -34,6 +34,7 @@ pub trait Visitor {
 
 pub fn with_scenario<V: Visitor>(name: &str, v: V) -> Option<V::Out> {
 	Some(match name {
+		"c03_demand" => v.visit(&c03::C03),
 		"c04_sweep" => v.visit(&c04::C04Sweep),
 		"c04_history" => v.visit(&c04::C04History),
 		"c04_native" => v.visit(&c04::C04Native),
@@ -56,6 +57,7 @@ pub fn with_scenario<V: Visitor>(name: &str, v: V) -> Option<V::Out> {
 /// (scenario, quick runs, thorough runs)
 pub fn scenarios_of(property: &str) -> Vec<(&'static str, u64, u64)> {
 	match property {
+		"C03" => vec![("c03_demand", 60_000, 4_000_000)],
 		"C04" => vec![("c04_sweep", 1_500, 100_000), ("c04_history", 15_000, 1_500_000), ("c04_native", 250, 10_000)],
 		"C07" => vec![("c07_m1", 40_000, 3_000_000)],
 		"C16" => vec![("c16_history", 30_000, 2_000_000)],
@@ -71,6 +73,13 @@ pub fn scenarios_of(property: &str) -> Vec<(&'static str, u64, u64)> {
 
 fn texts(property: &str) -> (&'static str, Vec<String>) {
 	match property {
+		"C03" => (
+			"one case = one of 30 templates with statically known label budgets (every std.trace label sits in a position the property names: top-level local, argument, default, array literal / comprehension / std.map / makeArray element, object field, object local, super field, +: field, assertion, import; bombs - error and divergence - sit in unneeded positions: unused local or argument, overridden default, untaken branch, unread element, hidden or unread field, short-circuited operand) plus a seeded demand schedule of 1-30 demands by a simulated embedding host over the lazy result (ObjValue::get, get_lazy + Thunk::evaluate twice, manifest of a field, iter, whole manifest, array elements through iter_lazy in reverse, each optionally cut off by a frame limit of 1-8). Oracle over the whole trace history: count(label) <= budget (+1 per cut-off demand in which it fired), no bomb text in any outcome, labels needed by the result fire, final manifestation byte-equal to the schedule-free run. Non-trivial = at least one demand was cut off by the frame limit; distinct = distinct event-log digests.",
+			vec![
+				"the space of programs in C03's quantifier is NOT explored: the template family is fixed; what is explored is demand order, repetition, access path and cut-off points".into(),
+				"label budgets of the templates are right".into(),
+			],
+		),
 		"C04" => (
 			"c04_sweep: one case = a depth-parametric template (function recursion, mutual recursion, object chain, array nesting + manifestation, super chain, local chain, import chain, array element chain, foldl) at 2-3 depths, evaluated under every frame limit of a seeded list (dense small limits, then strided, always 200 and 512), on fresh or shared states: each outcome must be the closed-form value or a stack overflow error, monotone in the limit, thresholds monotone in the depth, shallow recursion fits the defaults, and the guarded accessors read depth 0 / nothing evaluating after every cut-off. c04_history: 2-40 pool programs (every error kind reachable from source, cut-offs, self-dependence, runaway recursion) on one thread and two long-lived states, then a canary program that must evaluate normally. c04_native: the jrsonnet executable on runaway recursion / recursion well below the limit / self-dependence / deeply nested source, across --max-stack {200,512,5000,50000} and --os-stack settings, supervised as a child (signal, abort, hang = violation). Non-trivial = at least one cut-off or error actually happened / a non-default stack configuration was used; distinct = distinct event-log digests.",
 			vec![
